@@ -11,6 +11,7 @@ package c10
 import (
 	"context"
 	"fmt"
+	"os"
 	"sort"
 	"strings"
 	"testing"
@@ -44,6 +45,9 @@ type call struct {
 //	    delivery has to wait for it, i.e. with at most buffer-many events
 //	    outstanding for it: Batch, Subscribe and Close must still return and its
 //	    channel is closed after Close
+//	'c' prompt reader whose context has ALREADY ended when Subscribe is called
+//	    (cancelled just before the call); still a subscriber: its channel must
+//	    be closed once Close has returned
 //	'd' slow reader that stays: lets `delay` of model time pass before every
 //	    receive, receives until its channel is closed, never cancels
 //	'q' prompt reader that cancels its context at leaveAt (keeps reading until
@@ -89,7 +93,7 @@ func (s scen) name() string {
 		}
 		if x.kind == 'd' {
 			t += x.delay.String()
-		} else if x.kind != 'p' && x.kind != 'n' {
+		} else if x.kind != 'p' && x.kind != 'n' && x.kind != 'c' {
 			t += fmt.Sprint("@", x.leaveAt)
 		}
 		if x.lateAt > 0 {
@@ -183,6 +187,10 @@ func mkExec(s scen) *mc.Exec {
 			ctxs[i], cancels[i] = mc.CtxWithCancel(context.Background())
 		}
 		subscribe := func(i int) {
+			if subs[i].kind == 'c' {
+				subs[i].cancelled = true
+				cancels[i]() // the context has ended before Subscribe is called
+			}
 			b.Subscribe(ctxs[i], subs[i].ch)
 			subs[i].subscribed = true
 			subs[i].subAt = mc.ModelNow()
@@ -243,7 +251,7 @@ func mkExec(s scen) *mc.Exec {
 				return true
 			}
 			switch x.kind {
-			case 'p', 'q':
+			case 'p', 'q', 'c':
 				mc.GoNamed(fmt.Sprintf("reader%d", i), func() {
 					for read() {
 					}
@@ -658,7 +666,7 @@ func probeCap() int {
 			ch := mc.NewChan[int]()
 			b.Subscribe(ctx, mc.NewChan[int]())
 			b.Subscribe(ctx, ch)
-			for i := 0; i < 80; i++ {
+			for i := 0; i < 56; i++ {
 				b.Batch(i, i)
 			}
 			for {
@@ -680,6 +688,8 @@ const (
 	classStall    = "batcher/close-with-stalled-subscriber"
 	classMulti    = "batcher/overlapping-close"
 	classSlow     = "batcher/slow-staying-reader"
+	classPreCanc  = "batcher/subscribe-with-ended-context"
+	classReorder  = "batcher/same-sequence-with-backed-up-stayer"
 )
 
 func classOf(s scen) string {
@@ -893,6 +903,38 @@ func scaledScenarios() []hx.Scenario {
 			}
 		}
 	}
+	// (I) Subscribe with a context that has already ended: the subscriber's
+	// channel is closed once Close has returned (the unchanged code registers
+	// it, its forwarder leaves at once and closes the channel), deliveries to
+	// the others are unaffected
+	for _, batch := range []string{"a0", "a0 b0"} {
+		pc := sub{kind: 'c'}
+		pcLate := sub{kind: 'c', lateAt: 13}
+		for si, ss := range [][]sub{{pc}, {pc, p}, {p, pc}, {p, pcLate}, {pc, pc}} {
+			for _, c := range []int{17, 5} {
+				for _, tl := range []bool{false, true} {
+					add(scen{prods: [][]call{parse(1, batch)}, subs: ss, closeAt: c, timeline: tl, class: classPreCanc}, 2, 3, tl || si > 2 || (c == 5 && si > 0))
+				}
+			}
+		}
+	}
+	// (J) a staying reader that falls more than the buffer behind and then
+	// catches up (r0@40 / r1@40: reads 0 / 1 values, pauses until 40 ms, then
+	// reads promptly for ever) next to a prompt one, SIX deliveries (10, 10, 21,
+	// 21, 32, 32 ms; buffer 2): from the 4th on execute has to wait for the slow
+	// one. Both stay: every value exactly once, both see the same sequence.
+	for _, bsub := range []sub{{kind: 'r', k: 0, leaveAt: 40}, {kind: 'r', k: 1, leaveAt: 40}} {
+		for si, ss := range [][]sub{{bsub, p}, {p, bsub}} {
+			for _, tl := range []bool{false, true} {
+				quick := !tl && si == 0 && bsub.k == 0
+				before := len(out)
+				add(scen{prods: [][]call{parse(1, "a0 b0 a11 b0 a11 b0")}, subs: ss, closeAt: -1, timeline: tl, class: classReorder}, 2, 3, !quick)
+				if quick && len(out) > before {
+					out[len(out)-1].QuickMin = hx.Ptr(1)
+				}
+			}
+		}
+	}
 	// (H) a staying, well-behaved but SLOW reader: model time passes before each
 	// of its receives (timeline mode), 1-3 deliveries (buffer 2 + the one in the
 	// forwarder's hand: execute never has to wait for the reader), alone or next
@@ -940,7 +982,7 @@ func scaledScenarios() []hx.Scenario {
 	// skips the tail: the departing-subscriber families go first
 	rank := func(c string) int {
 		switch c {
-		case classMulti, classSlow:
+		case classMulti, classSlow, classPreCanc, classReorder:
 			return -1
 		case classDuring, classStall:
 			return 0
@@ -981,6 +1023,22 @@ func trueSizeScenarios(capacity int) []hx.Scenario {
 			}
 		}
 	}
+	// a staying reader that falls more than the real buffer behind (55 keys fall
+	// due together, it reads from 40 ms on) next to a prompt one: same sequence
+	var burst []call
+	for i := 0; i < capacity+5; i++ {
+		burst = append(burst, call{key: fmt.Sprintf("k%02d", i), val: i + 1})
+	}
+	for si, ss := range [][]sub{{{kind: 'r', k: 0, leaveAt: 40}, p}, {p, {kind: 'r', k: 0, leaveAt: 40}}} {
+		s := scen{prods: [][]call{burst}, subs: ss, closeAt: -1, label: fmt.Sprintf("k00..k%02d", len(burst)-1), class: classReorder}
+		scn := s
+		out = append(out, hx.Scenario{
+			Name:  fmt.Sprintf("cap%d %s", capacity, s.name()),
+			Class: classOf(s), ThoroughOnly: si > 0,
+			Opts: opts(s, 1, 1),
+			Mk:   func() *mc.Exec { return mkExec(scn) },
+		})
+	}
 	// a subscriber that neither reads nor cancels with exactly the real buffer
 	// (50) outstanding: Batch and Close return, its channel is closed
 	var full []call
@@ -1001,15 +1059,25 @@ func trueSizeScenarios(capacity int) []hx.Scenario {
 }
 
 func scenarios(t *testing.T) []hx.Scenario {
-	switch c := probeCap(); c {
-	case 2:
+	// The part is declared by the generated copy (part_<name>.go.txt, added
+	// through the overlay); the measured capacity is only reported: a tree in
+	// which the buffering behaves differently (another size, deliveries that
+	// never wait) is explored with the declared family rather than refused.
+	c := probeCap()
+	switch batcher.McPart {
+	case "scaled":
+		if c != 2 {
+			fmt.Fprintf(os.Stderr, "note: part scaled: measured per-subscriber capacity %d, expected 2\n", c)
+		}
 		// the cheap churn family first: a part that runs out of budget skips the tail
 		return append(churnScenarios(), scaledScenarios()...)
-	case 50:
-		return trueSizeScenarios(c)
-	default:
-		t.Fatalf("instrumented batcher has a per-subscriber buffer of %d; the harness expects 2 (scaled part) or 50 (true size)", c)
+	case "truesize":
+		if c != 50 {
+			fmt.Fprintf(os.Stderr, "note: part truesize: measured per-subscriber capacity %d, expected 50\n", c)
+		}
+		return trueSizeScenarios(50)
 	}
+	t.Fatalf("unknown part %q", batcher.McPart)
 	return nil
 }
 
